@@ -218,6 +218,34 @@ def run(ck):
               "stops because one peer's FIFO is long (head-of-line blocking) leaves the other peers' responses in the mailbox until the "
               "stalled peer reads again", key_pred=lambda k: k.startswith("drain-loop:Pistache::Tcp::Transport::"), min_instances=3)
 
+    # ---------------- R14: the caller's trigger mode is honoured ----------------
+    ck.rule("C07-R14", "B guard of a store (the condition mentions the mode only)",
+            "the transport registers and re-arms peer sockets edge-triggered and reads / drains accordingly (until would-block): every Epoll "
+            "registration wrapper that takes a mode sets EPOLLET on the `mode == Mode::Edge` edge and on nothing else -- a wrapper that "
+            "makes some registrations level-triggered on its own (those with write interest, say) turns input the worker deliberately "
+            "leaves unread while a peer is stalled into an event that fires on every epoll_wait: the worker spins", 3)
+    for wf in [g_ for g_ in prog.flat_library_funcs() if g_.base.startswith("Pistache::Polling::Epoll::") and g_.blocks and any(p_["name"] == "mode" or "Mode" in (p_.get("type") or "") for p_ in g_.params)]:
+        modep = [p_["name"] for p_ in wf.params if "Mode" in (p_.get("type") or "")][:1]
+        ets = [e for e in wf.events("assign") if "e:EPOLLET" in (e.get("refs") or []) or e.get("const") == "e:EPOLLET"]
+        ck.require(modep and ets, "%s takes a trigger mode but never sets EPOLLET" % wf.name)
+        for e in ets:
+            guards = [(b, k) for b in wf.blocks.values() if b.term and len(b.succs) == 2 for k in (0, 1) if b.succs[k] is not None and cfg.edge_dominates(wf, b.id, k, e)]
+            pure = bool(guards)
+            on_edge = False
+            for b, k in guards:
+                refs_ = set(b.term.get("refs") or [])
+                if refs_ - {"v:" + modep[0], "e:Pistache::Polling::Mode::Edge", "e:Pistache::Polling::Mode::Level"}:
+                    pure = False
+                r_ = lib.rel_on_edge(b.term, k)
+                if r_ is not None and r_[1] == "==" and "Mode::Edge" in ((r_[2].get("t") or "") + (r_[0].get("t") or "") + str(b.term.get("rconst"))):
+                    on_edge = True
+                if r_ is not None and r_[1] == "!=" and "Mode::Level" in ((r_[2].get("t") or "") + (r_[0].get("t") or "") + str(b.term.get("rconst"))):
+                    on_edge = True
+            ck.ob("C07-R14", "%s/EPOLLET-iff-edge-mode" % wf.base.replace("Pistache::Polling::", ""), pure and on_edge, e.loc, wf,
+                  "EPOLLET is set on the mode == Edge edge, whose condition mentions the mode only" if pure and on_edge else
+                  "whether %s registers edge-triggered does not depend on the caller's mode alone (guards: %s): some registrations the "
+                  "transport asks for as edge-triggered are made level-triggered" % (wf.name, [b.term.get("cond") for b, _k in guards]))
+
     # ---------------- R9: an idle worker sleeps in epoll_wait ----------------
     ck.rule("C07-R9", "dataflow identity",
             "Epoll::poll hands its timeout parameter to epoll_wait unchanged (through casts only), and the reactor's loop calls it with "
